@@ -8,9 +8,9 @@ import (
 	"strings"
 
 	"github.com/btcsuite/btcd/btcec"
+	"github.com/massnetorg/mass-core/massutil"
 	"github.com/massnetorg/mass-core/txscript"
 	"github.com/massnetorg/mass-core/wire"
-	"github.com/massnetorg/mass-core/massutil"
 	"massnet.org/mass-wallet/masswallet"
 	"massnet.org/mass-wallet/masswallet/keystore"
 
